@@ -434,10 +434,12 @@ def run(case):
     exp0 = next(iter(info['expected'].values()))
     m0 = info['model']
     probes = {f: 1 for f in B.probe_flags(case, m0, exp0)}
+    baseline_disagrees = bool(bv)
     if bv:
-        probes['baseline_disagrees_skipped'] = 1
-        return {'violations': [], 'probes': probes, 'faults': {}, 'states': [], 'steps': info['steps'],
-                'nontrivial': False, 'digest': kernel.digest_of([case, 'baseline'])}
+        # the fault-free run already differs from the reference machine (C01/C07 report that). The faulted runs are
+        # still judged: a stop state that is no state of the reference machine is a C18 violation in its own right
+        # (e.g. an engine that consumes the input bit before it delivers the output bit of the same op).
+        probes['baseline_disagrees'] = 1
     nontrivial = 0
     evals = 0
     for plan in case['plans']:
@@ -457,6 +459,7 @@ def run(case):
             states.add(f"{enginesim.cfg_class(cfg)}|{plan['kind']}|{exp['micro']}|{exp['outcome'][0]}:{exp['outcome'][1]}")
         for v in vs:
             v['fault'] = plan
+            v['baseline_also_disagrees'] = baseline_disagrees
             violations.append(v)
         if violations:
             break
@@ -513,6 +516,7 @@ def signature(case, violation):
         c['fault'] = violation['fault']
     sig = enginesim.signature(c, violation)
     sig['fault_kind'] = (violation.get('fault') or {}).get('kind')
+    sig['baseline_also_disagrees'] = bool(violation.get('baseline_also_disagrees'))
     sig['exp_outcome_class'] = (violation.get('exp_outcome') or [None, None])[:2]
     return sig
 
